@@ -295,6 +295,8 @@ def gen_proof_side(pid, thorough=False):
     cfg = PROP_GEN.get(pid)
     if cfg is None:
         return None
+    if os.environ.get("VERIF_NO_GEN") == "1" and REPO_TAG:
+        return None            # self-tests only (scratch repositories): measure the correspondence alone
     import shutil
     sys.path.insert(0, os.path.join(ROOT, "gen"))
     import rs2v
@@ -461,14 +463,20 @@ def _run_shard(args):
         f.write("\n".join(cases) + "\n")
     impl = []
     start = 0
-    # the harness flushes one line per case; a hang or abort is pinned to the next case
+    n_timeouts = 0
+    # the harness flushes one line per case; a hang or abort is pinned to the next case.  A crate that
+    # hangs on many cases must not stall the verdict: after the first timeout the budget per restart is
+    # one minute, after three timeouts the remaining cases of the shard are not run (reported TIMEOUT)
     while start < len(cases):
+        if n_timeouts >= 3:
+            impl += ["TIMEOUT"] * (len(cases) - start)
+            break
         sub = os.path.join(workdir, "cases.%d.%d.txt" % (idx, start))
         with open(sub, "w") as f:
             f.write("\n".join(cases[start:]) + "\n")
         try:
             p = subprocess.run([exe, engine, sub], stdout=subprocess.PIPE, stderr=subprocess.DEVNULL,
-                               timeout=timeout, env=ENV, text=True)
+                               timeout=(timeout if n_timeouts == 0 else min(timeout, 60)), env=ENV, text=True)
             lines = p.stdout.splitlines()
             crashed = p.returncode != 0
             tag = "ABORT"
@@ -477,6 +485,7 @@ def _run_shard(args):
             lines = lines.splitlines()
             crashed = True
             tag = "TIMEOUT"
+            n_timeouts += 1
         os.unlink(sub)
         got = lines[:len(cases) - start]
         impl += got
